@@ -88,6 +88,7 @@ func init() {
 		c18LibraryIsSilent(c)
 		c18ArgumentCounts(c)
 		c18CommandsDispatched(c)
+		c18AbsentFileCreated(c)
 		c.R.Rule("C18.W10", "what the library returns for two texts does not depend on the profiles compiled earlier in the process (a fresh command-line process has compiled none): the shared default prefix table is copied, never written", 1)
 		prefixResolution(c, "C18.W10")
 		c.Borrow("C09", "C09.S1", "C18.W12", "the public entry points hand the caller's texts and configurations to the validator unchanged: the command-line front end calls the validator directly, so anything the public wrapper does to a text first (a byte order mark stripped, blanks trimmed) makes the library's answer differ from what the command prints", 3, func(o Obligation) bool {
